@@ -86,6 +86,17 @@ pub fn gen_value(rng: &mut Rng, ty: &str, pool: &Pool) -> Value {
             1 => u128::MAX.to_string(),
             _ => (rng.next() as u128 * 3).to_string(),
         }),
+        // serde-json-wasm writes 128 bit integers as strings
+        "u128" => json!(match rng.below(3) {
+            0 => "0".to_string(),
+            1 => u128::MAX.to_string(),
+            _ => (rng.next() as u128 * 77).to_string(),
+        }),
+        "i128" => json!(match rng.below(3) {
+            0 => i128::MIN.to_string(),
+            1 => "-1".to_string(),
+            _ => (rng.next() as i128).to_string(),
+        }),
         "i64" => json!(match rng.below(4) {
             0 => i64::MIN,
             1 => i64::MAX,
